@@ -607,6 +607,16 @@ func useAfterFailedCheck(f *ssa.Function) []nilUse {
 			}
 			seen[bb] = true
 			for _, ins := range bb.Instrs {
+				// the path runs through the value's own definition again (next loop
+				// iteration): a fresh dynamic instance, the nil fact is gone
+				if vi, ok := val.(ssa.Instruction); ok && ins == vi {
+					return nil
+				}
+				if ex, ok := val.(*ssa.Extract); ok {
+					if ti, ok := ex.Tuple.(ssa.Instruction); ok && ins == ti {
+						return nil
+					}
+				}
 				if derefOf(ins, val) {
 					return &nilUse{what: render(val), why: why, pos: ins.Pos()}
 				}
